@@ -7,43 +7,43 @@ HERE = os.path.dirname(os.path.dirname(os.path.abspath(__file__)))
 
 CLAIMS = {
     "C02": ("5 C02", "global value numbering with polynomial normal form (formula identities) + overflow-taint dataflow + call-time snapshot ordering of compute_weights",
-            "Structural proof of the formula clauses: log_w == L+P-Q, log Z == LSE(log_w)-log N, ESS identity, max-shifted logsumexp, rejection mask, symmetric operations only, no shift-dependent exp() reaches the protected outputs, the ESS is computed from max-shifted log-weights, and outside the sample classes weights are computed only after the three log-densities of that set are stored and never before a later overwrite. Decides the algebra for all inputs at once; does not decide floating-point accuracy."),
+            "Structural proof of the formula clauses: log_w == L+P-Q, log Z == LSE(log_w)-log N, ESS identity, max-shifted logsumexp, rejection mask, symmetric operations only, no shift-dependent exp() reaches the protected outputs, the ESS is computed from max-shifted log-weights, and outside the sample classes weights are computed only after the three log-densities of that set are stored and never before a later overwrite. Decides the algebra for all inputs at once; does not decide floating-point accuracy. Also (shared with C10): the initial population pairs each row's log_q with its own draw."),
     "C03": ("5 C03", "value numbering of flow wrappers: Jacobian sign conventions, must-pass-through inverse_rescale, constructor keyword/attribute agreement, cache-coherence analysis (lazy caches and jit / lru_cache closures over reassigned attributes)",
-            "Structural necessary conditions per flow back-end: sign and provenance of both Jacobian terms, draws routed through the data transform, the data transform attached from the instance options. Normalisation of the third-party density is not decided."),
+            "Structural necessary conditions per flow back-end: sign and provenance of both Jacobian terms, draws routed through the data transform, the data transform attached from the instance options. Normalisation of the third-party density is not decided. Also: no stochastic log-determinant estimator is enabled for a flow (frozen zuko API fact), and the flow survives save / load / re-save (shared with C13)."),
     "C04": ("5 C04", "value numbering + syntax-directed symbolic differentiation with a log-abs normal form (log-Jacobian == log|derivative|), forward/inverse antisymmetry, symbolic round trip of rational maps, composite stage-order/mask/accumulation extraction over all guard combinations",
-            "Proves for every element-wise transform that the reported forward and inverse log-Jacobians equal the column sum of log|derivative| of the folded map (symbolic differentiation + log-abs normal form), antisymmetry at the corresponding point, the symbolic round trip of rational maps, and order/mask/accumulation for all 8 on/off combinations of the composite."),
+            "Proves for every element-wise transform that the reported forward and inverse log-Jacobians equal the column sum of log|derivative| of the folded map (symbolic differentiation + log-abs normal form), antisymmetry at the corresponding point, the symbolic round trip of rational maps, and order/mask/accumulation for all 8 on/off combinations of the composite. Also: transforms never write into the array they are given (ownership analysis), and an in-place log-Jacobian accumulator is allocated in the transform's dtype."),
     "C05": ("5 C05", "value numbering of every kernel target against (1-beta)Q + beta(L+P) + J; NaN-map idiom match; binding of beta in mutate(); call-site agreement mutate(resample(p, b), b) in the SMC driver",
-            "Proves the tempered-target identity, the NaN -> -inf map and the beta binding for every sampler class reachable by MRO, including kernels whose packages are absent."),
+            "Proves the tempered-target identity, the NaN -> -inf map and the beta binding for every sampler class reachable by MRO, including kernels whose packages are absent. Also: a compiled / cached kernel target is rebuilt whenever an object it closed over is refitted (cache coherence through bound methods), and evaluating the target leaves the kernel's point untouched."),
     "C06": ("5 C06", "path-sensitive constant propagation (division by a definite zero), CFG exit/once-per-iteration analysis of the SMC loop, ranking argument over the option prologue, value numbering of the clamp/floor/snap",
             "Decides the structural termination conditions: loop exits only at beta==1 or the cap, counter and temperature updated once per iteration from determine_beta, clamp/floor identities, tolerance-robust snap of the fixed schedule, no definite division by zero on any feasible option path, progress on every option path (one known finding), shared options forwarded by every sample() override, a checkpoint snapshot of the temperature list (rule shared with C11) and NaN-free incremental weights for zero-likelihood particles (rule shared with C08)."),
     "C07": ("5 C07", "template match on the bisection loop's transfer function in value-numbered normal form",
-            "Proves the bracket initialisation, guard, midpoint, branch polarity, result and the efficiency/target identities of the temperature search; monotonicity of ESS(beta) is an assumption of the method."),
+            "Proves the bracket initialisation, guard, midpoint, branch polarity, result and the efficiency/target identities of the temperature search; monotonicity of ESS(beta) is an assumption of the method. Also (shared with C06): the loop moves to exactly the search result, once per iteration."),
     "C08": ("5 C08", "value numbering (ratio / variance identities), reaching definitions at the loop's ratio call on fresh and resumed paths, per-iteration path counting of history appends on the CFG, who-may-write scan, final-sum identity with call-time snapshot",
-            "Proves that each step's ratio uses the pre-resampling population and the temperatures actually used, is appended exactly once per iteration and nowhere else, that the returned evidence and error are the sum / root-sum of the recorded series, and (hazard analysis on the products as written) that the log-likelihood enters the incremental weight only multiplied by the temperature difference, so a zero-likelihood particle gets weight 0, not NaN."),
+            "Proves that each step's ratio uses the pre-resampling population and the temperatures actually used, is appended exactly once per iteration and nowhere else, that the returned evidence and error are the sum / root-sum of the recorded series, and (hazard analysis on the products as written) that the log-likelihood enters the incremental weight only multiplied by the temperature difference, so a zero-likelihood particle gets weight 0, not NaN. Also: an increment computed inline is decided on values (weights of the temperature the iteration moves to), the recorded series are not updated in place by later readers, and the total keeps the run's precision."),
     "C09": ("5 C09", "value numbering of the generator call and the constructor keywords (field x index agreement); call-site agreement of the temperature handed to resample() and to the kernel",
             "Proves the probability vector is the normalised incremental weight, the draw uses the caller's generator, every per-sample field is indexed by the one drawn index, and a weight vector supplied by the caller is log_weights(population, beta') for the temperature resampled to (checked at the call sites with determine_beta inlined)."),
     "C10": ("5 C10", "typestate 'coherent' on sample-set objects (field x producer agreement on the same object), loop transfer function of the initial-population accumulator, who-may-write scan of .x, flow-sensitive ownership (borrow) analysis of every in-place array write",
             "Proves that each mutate() re-evaluates q, prior and likelihood on the returned object from its own coordinates, that the initial population pairs each draw with its own log_q, keeps exactly the finite-prior rows and starts empty and is trimmed to n, that the final enlargement runs exactly when a different final size is requested and re-evaluates the densities, that nothing overwrites coordinates in place, and that every in-place array write (update_at_indices, subscript stores, in-place methods, out=) targets an array created in the writing function, never a (view of a) parameter or attribute."),
     "C11": ("5 C11", "computed loop-carried state (upward-exposed uses, mod summaries through self calls) vs checkpoint payload key set and restore-side stores; oracle-resolved value provenance of every restored quantity under the written layout; CFG cut-point check over every checkpoint call including exceptional edges; history-free refit of the preconditioning transforms (upward-exposed attributes updated from data); mutable-default scan of payload builders; per-source-type folding of the dispatch; value-based forwarding of the primed checkpoint",
-            "Proves every loop-carried local and self attribute is saved and restored (one known finding: BlackJAX key), restore reads only keys the payload writes, the resumed path does not mutate restored state before the loop, the checkpoint is cut after the iteration's writes and snapshots (deep-copies) the history, each restored quantity is exactly the entry the payload wrote, each of the three source kinds is routed to its loader, a finished run does not iterate again, and the resume-from-file constructor primes checkpoint, size and sampler type which sample_posterior forwards under exactly the stated conditions. Restore hooks bring back nothing that sample() consumes destructively, and every sample() override hands resume_from on. Bit-identical replay is not decided."),
+            "Proves every loop-carried local and self attribute is saved and restored (one known finding: BlackJAX key), restore reads only keys the payload writes, the resumed path does not mutate restored state before the loop, the checkpoint is cut after the iteration's writes and snapshots (deep-copies) the history, each restored quantity is exactly the entry the payload wrote, each of the three source kinds is routed to its loader, a finished run does not iterate again, and the resume-from-file constructor primes checkpoint, size and sampler type which sample_posterior forwards under exactly the stated conditions. Restore hooks bring back nothing that sample() consumes destructively, and every sample() override hands resume_from on. Bit-identical replay is not decided. Also: the generator / history objects the restore wrote into are not replaced before the loop, and the proposal stored next to the checkpoint is the current one (shared with C14)."),
     "C12": ("5 C12", "CFG path counting and post-dominance of checkpoint calls, path-condition extraction of the cadence predicate, typestate interpretation of the HDF5 blob writer over the four prior states of the dataset, constant agreement writer vs readers, dominance of config/flow writing over sampling, oracle-resolved wiring of file path / cadence / callback from the arguments or the auto-checkpoint context",
-            "Proves cadence (once per iteration + forced final on every return path), that the blob writer leaves a dataset of the new length holding the whole new buffer whatever the file held before (absent / same length / shorter / longer), per-checkpoint open/close, agreement of the group/dataset constants, that config and flow are written before the sampler starts (the flow under no other guard than its existence), and that the file, cadence and file-writing callback handed to the sampler are the explicit arguments, else the context defaults, and every sample() override hands the checkpoint options on to the loop."),
+            "Proves cadence (once per iteration + forced final on every return path), that the blob writer leaves a dataset of the new length holding the whole new buffer whatever the file held before (absent / same length / shorter / longer), per-checkpoint open/close, agreement of the group/dataset constants, that config and flow are written before the sampler starts (the flow under no other guard than its existence), and that the file, cadence and file-writing callback handed to the sampler are the explicit arguments, else the context defaults, and every sample() override hands the checkpoint options on to the loop. Also: the blob is one pickle of this call's state in a buffer of its own, and every SMC sampler names the options sample_posterior looks for in signature(sample)."),
     "C17": ("5 C17", "typestate (prior=SET) at every discovered likelihood call site, through row-aligned derivations and loop-carried variables; who-may-reference scan for the raw callable and the counter",
-            "The temporal property is decided completely at the structural level: all 12 call sites, including kernels that cannot be imported here; counting wrapper is the only path to the user likelihood and adds len(samples) before the user call is entered."),
+            "The temporal property is decided completely at the structural level: all 12 call sites, including kernels that cannot be imported here; counting wrapper is the only path to the user likelihood and adds len(samples) before the user call is entered. Also: positional callables reach the constructor parameter they are named after (argument-order rule over resolved calls)."),
     "C18": ("5 C18", "per-iteration path counting of history appends on the CFG (with run-invariant flag splitting), per-call path counting in each concrete mutate(), fresh/resumed pre-loop append analysis, value numbering of appended values",
-            "Proves one entry per iteration for every series on every path and class, initial population recorded once on the fresh path only, appended values are this iteration's definitions (four known findings: extra entry from the enlargement mutate)."),
+            "Proves one entry per iteration for every series on every path and class, initial population recorded once on the fresh path only, appended values are this iteration's definitions (four known findings: extra entry from the enlargement mutate). Also: a resumed run starts from the checkpointed history (shared with C11), and recorded series are not updated in place through an item alias."),
     "C13": ("5 C13", "writer/reader schema agreement: key-set, sentinel, group/dataset-name, f-string-template and constructor-signature extraction for ten save/load pairs; sibling comparison of the two flow loaders; per-value-kind folding of the HDF5 encoder/decoder; event dataflow of flow / transform / history save and load (private helpers inlined); constant folding of the namespace-name resolver on the names a writer stores; field carry of to_numpy(), which every sample-set writer goes through",
-            "Proves that what each writer emits is what its reader consumes (and that empty dicts reach their sentinel, captured **kwargs are re-splatted, every stateful constructor parameter is saved and every key passed on rebuild is a named parameter), that every kind of value takes the encoder/decoder branch meant for it and the two sides pair up, and that flow/transform/history loaders install what the savers wrote (weights, data transform, fitted state, all series) in the object they return. Arrays reload as arrays (only 0-d collapsed to scalars). Value equality after a round trip is not decided."),
+            "Proves that what each writer emits is what its reader consumes (and that empty dicts reach their sentinel, captured **kwargs are re-splatted, every stateful constructor parameter is saved and every key passed on rebuild is a named parameter), that every kind of value takes the encoder/decoder branch meant for it and the two sides pair up, and that flow/transform/history loaders install what the savers wrote (weights, data transform, fitted state, all series) in the object they return. Arrays reload as arrays (only 0-d collapsed to scalars). Value equality after a round trip is not decided. Also: stored values never receive HDF5 chunk / filter options without a rank test (0-d data would fall into the lossy string fallback), and a configuration group is replaced, not merged."),
     "C14": ("5 C14", "guard-term analysis of the artifact writes that precede the sampler call (no file-content-dependent skip, delete-before-rewrite, sampler type updated first); branch analysis of the non-checkpointing-sampler path and of fit()'s rewrites next to a stored checkpoint; blob-writer typestate and flow save/load round-trip rules shared with C12 / C13",
-            "Decides necessary clauses -- no stale-artifact guard on /flow and /aspire_config before sampling, the checkpoint payload is really stored, a flow survives load-then-save, and neither a non-checkpointing sampler nor fit() swaps flow / configuration under a checkpoint they leave in place (three known findings) --; the quantification over operation histories is not claimed (state-space exploration, another family)."),
+            "Decides necessary clauses -- no stale-artifact guard on /flow and /aspire_config before sampling, the checkpoint payload is really stored, a flow survives load-then-save, and neither a non-checkpointing sampler nor fit() swaps flow / configuration under a checkpoint they leave in place (three known findings) --; the quantification over operation histories is not claimed (state-space exploration, another family). Also: bounds are wired in parameter order (the file returns mappings key-sorted) and flow wrappers keep no stale compiled density across refits."),
     "C15": ("5 C15", "field-carry matrix over (concrete class x inherited rebuild method) from value-numbered constructor keywords, with a frozen exception table; dtype-conversion provenance; who-constructs scan inside samplers; no_grad guard on torch flow outputs; raw-NumPy-operand scan of array arithmetic (numpy.float64 scalars widen float32)",
-            "Proves for all 18 (class, method) pairs that every constructor field is carried or deliberately excepted, conversions build in the target namespace with a converted dtype, sampler populations receive the sampler dtype, torch flow outputs are grad-free, and no memoised function reads the namespace default dtype (run-time state). Numerical value preservation is not decided."),
+            "Proves for all 18 (class, method) pairs that every constructor field is carried or deliberately excepted, conversions build in the target namespace with a converted dtype, sampler populations receive the sampler dtype, torch flow outputs are grad-free, and no memoised function reads the namespace default dtype (run-time state). Numerical value preservation is not decided. Also: a dtype handed to a namespace conversion was converted for the target (convert_dtype, not resolve_dtype, for source-library dtype objects), and a DLPack hand-over of a torch tensor is made contiguous first."),
     "C16": ("5 C16", "value numbering of __getitem__/concatenate keywords per concrete class (one index, one list, same-field guard), carried-not-recomputed evidence, pickle key pairing, from_dict(to_dict(s)) folded as one composition with the dataclass-field loop unrolled (per class and layout)",
-            "Proves row alignment of selection and concatenation for every per-sample field of every class, that scalar fields are carried, that pickling restores the namespace, and that the dict round trip hands every constructor field of the source back to the constructor (x rebuilt per parameter name, same namespace; in the nested layout nothing is removed from the field dictionary by parameter name). The reference-model comparison over operation sequences is not decided."),
+            "Proves row alignment of selection and concatenation for every per-sample field of every class, that scalar fields are carried, that pickling restores the namespace, and that the dict round trip hands every constructor field of the source back to the constructor (x rebuilt per parameter name, same namespace; in the nested layout nothing is removed from the field dictionary by parameter name). The reference-model comparison over operation sequences is not decided. Also: the constructors store per-sample fields through shape-preserving conversions only."),
     "C19": ("5 C19", "CFG with exceptional edges: save-before-overwrite dominance, restore on all paths from the yield (must-pass-through), both restore branches, absent-versus-None entry state (who stores None in the attribute); __enter__/__exit__ store ordering and guards of PoolHandler",
-            "For these two context managers the structure is the behaviour: every normal or exceptional exit passes the restore, originals are saved before replacement and restored unconditionally first, the pool is closed only on request and exceptions propagate."),
+            "For these two context managers the structure is the behaviour: every normal or exceptional exit passes the restore, originals are saved before replacement and restored unconditionally first, the pool is closed only on request and exceptions propagate. Also: nothing that may raise runs in the clean-up before the restore."),
     "C20": ("5 C20", "random-source provenance: fallback-only construction of fresh generators, effectual-parameter (def-use) analysis, held-generator preservation, third-party kernel API table, JAX key split/advance/single-use path counting, sibling constructor agreement, caller-owned dict aliasing, key in force at the hand-over to the run (pre-call snapshot), no seeding inside a fork_rng block",
-            "Proves the structural necessary conditions of reproducibility (four known findings about minipcn/emcee wiring); every seed value of the torch flow takes effect. Bit-identical output is not decided."),
+            "Proves the structural necessary conditions of reproducibility (four known findings about minipcn/emcee wiring); every seed value of the torch flow takes effect. Bit-identical output is not decided. Also: a class whose constructor takes the random source does not fall back to a fresh one in sample(), and no draw depends on the logging state."),
 }
 
 NA = {
